@@ -448,7 +448,7 @@ Qed.
 Lemma drains_deliver c n : fits c -> forall k st E,
   Icr E st -> rng st = 0 -> (mu st < k)%nat -> (mu st <= n)%nat ->
   forall r, In r (accepted (E ++ snd (run_history c st (drains n k)))) ->
-            In r (handoffs (E ++ snd (run_history c st (drains n k)))).
+            In r (finals (E ++ snd (run_history c st (drains n k)))).
 Proof.
   intros Hf. induction k as [|k IH]; intros st E HI Hr0 Hk Hn r; [lia|].
   cbn [drains repeat run_history]. fold (drains n k).
@@ -460,21 +460,21 @@ Proof.
   destruct (run_history c (i_store inc) (drains n k)) as [st' evs] eqn:Eh. cbn [snd].
   rewrite app_assoc.
   destruct D3 as [ND|Lt].
-  - (* nothing durable: everything accepted so far is final, hence handed off; later drains accept nothing *)
+  - (* nothing durable: everything accepted so far is final; later drains accept nothing *)
     pose proof (drains_no_accept c n k (i_store inc)) as NA. rewrite Eh in NA. cbn [snd] in NA.
-    rewrite accepted_app, NA, app_nil_r, handoffs_app. intros Hin. apply in_app_iff. left.
-    destruct HI' as (_ & G & F). destruct (G r Hin) as [Fi|D]; [now apply F|destruct (ND r D)].
+    rewrite accepted_app, NA, app_nil_r, finals_app. intros Hin. apply in_app_iff. left.
+    destruct HI' as (_ & G & F). destruct (G r Hin) as [Fi|D]; [exact Fi|destruct (ND r D)].
   - specialize (IH (i_store inc) (E ++ i_events inc) HI' D1). rewrite Eh in IH. cbn [snd] in IH.
     apply IH; lia.
 Qed.
 
-(* first sentence of the property: at least once, for every history *)
-Lemma at_least_once_l c h n k :
+(* every accepted request reaches a FINAL outcome (hence, in particular, a hand-off) *)
+Lemma all_final_after_drains_l c h n k :
   fits c ->
   (pending (fst (run_history c store0 h)) <= n)%nat ->
   (length (di_of (fst (run_history c store0 h))) + 2 <= k)%nat ->
   forall r, In r (accepted (snd (run_history c store0 (h ++ drains n k)))) ->
-            In r (handoffs (snd (run_history c store0 (h ++ drains n k)))).
+            In r (finals (snd (run_history c store0 (h ++ drains n k)))).
 Proof.
   intros Hf Hn Hk r. rewrite run_history_app. cbn [snd].
   pose proof (history_inv c h store0 [] Icr_store0) as HI. cbn [app] in HI.
@@ -487,6 +487,17 @@ Proof.
   pose proof (drains_deliver c n Hf k (i_store inc) (E ++ i_events inc) HI' D1) as X.
   destruct (run_history c (i_store inc) (drains n k)) as [st' evs]. cbn [snd] in *.
   rewrite app_assoc. apply X; unfold mu in *; lia.
+Qed.
+
+(* first sentence of the property: at least once, for every history *)
+Lemma at_least_once_l c h n k :
+  fits c ->
+  (pending (fst (run_history c store0 h)) <= n)%nat ->
+  (length (di_of (fst (run_history c store0 h))) + 2 <= k)%nat ->
+  forall r, In r (accepted (snd (run_history c store0 (h ++ drains n k)))) ->
+            In r (handoffs (snd (run_history c store0 (h ++ drains n k)))).
+Proof.
+  intros Hf Hn Hk r Hr. apply final_was_handed_l. now apply (all_final_after_drains_l c h n k).
 Qed.
 
 Lemma drain_progress_l c h n :
